@@ -267,3 +267,10 @@ func vSyncReset()                  {}
 func vSetOpaque(ptr any, tag string)               {}
 func vOpaqueTag(x any) string                      { return "" }
 func vBoundMethodOf(f any, recv any, name string) bool { return true }
+
+func vName(p any, name string)      {}
+func vWatch(p any, loc string)      {}
+func vWatchMap(m any, loc string)   {}
+func vAccess(kind, loc string)      {}
+func vTraceReset()                  {}
+func vTraceEmit(op string)          {}
